@@ -24,14 +24,14 @@ def tasks(tier, seed):
             continue
         txt = '#define VP_FS_CAP 4096\n#define STEPS %d\n#define FIRST_OP %d\n#define SECOND_OP %d\n' % (steps, a, b) + src
         ts.append(Task('hist.%s.%s' % (OPS[a].split('(')[0] + str(a), OPS[b].split('(')[0] + str(b)), txt, 'h_hist', None,
-                       opts=dict(validate=False, extra=['zlib_stub.cpp'], max_wall=1500, max_steps=60000000, enum_limit=400,
+                       opts=dict(validate=False, extra=['zlib_stub.cpp'], limit_is_hang=True, max_wall=1500, max_steps=6000000, enum_limit=400,
                                  max_paths=400000),
                        desc='all API histories of length %d starting with %s, %s over {open(missing), open(unwritable), open(valid,in), '
                             'open(out), read, write(obj), close, destroy} that respect the session mode; the consumer deletes what '
                             'read() returns; File destroyed at the end; leak check over the whole heap, threads joined, '
                             'is_open/good/eof against a reference state machine' % (steps, OPS[a], OPS[b]),
                        reach=('h_hist:end',), bounds='history length %d; files of 2 objects' % steps,
-                       kinds={'assert', 'memory', 'leak', 'uncaught_exception', 'terminate', 'deadlock', 'limit'}))
+                       kinds={'assert', 'memory', 'leak', 'uncaught_exception', 'terminate', 'deadlock', 'hang', 'limit'}))
     meta = dict(
         level='model_checking',
         explanation='Histories of API calls are enumerated completely up to the bound (structural choices fork paths); each runs the '
